@@ -290,6 +290,21 @@ func (e *specEnv) evalBinary(n *EBinary) sv {
 	b := e.eval(n.Y)
 	switch n.Op {
 	case "==", "!=":
+		// a slice compared with nil: the same test the translation of the code uses (no backing array)
+		an, bn := a.ty == types.Typ[types.UntypedNil], b.ty == types.Typ[types.UntypedNil]
+		if an != bn {
+			x := a
+			if an {
+				x = b
+			}
+			if _, ok := types.Unalias(x.ty).Underlying().(*types.Slice); ok {
+				r := eq(app("s-arr", x.t), "0")
+				if n.Op == "!=" {
+					r = not(r)
+				}
+				return sv{r, tBool}
+			}
+		}
 		a, b = e.unify(a, b)
 		// on float64, spec == is identity of the value (bit pattern); Go's == is feq(x, y)
 		r := eq(a.t, b.t)
@@ -458,11 +473,18 @@ func (e *specEnv) evalCall(n *ECall) sv {
 		if n.Fun == "max" {
 			f = "imax"
 		}
+		rt := types.Type(tInt)
+		if basicInfo(as[0].ty)&types.IsFloat != 0 {
+			// Go's builtin min/max on float64: the same uninterpreted symbols the translation of the code uses
+			f = "f64_" + n.Fun
+			c.declareFun(f, []string{"F64", "F64"}, "F64")
+			rt = as[0].ty
+		}
 		r := as[0].t
 		for _, a := range as[1:] {
 			r = app(f, r, a.t)
 		}
-		return sv{r, tInt}
+		return sv{r, rt}
 	case "abs":
 		need(1)
 		return sv{app("iabs", args()[0].t), tInt}
